@@ -1383,12 +1383,55 @@ func c06RefWithOr(r *mon.Run) {
 	}
 }
 
+// c06DenseOptional is the pinned witness of a recorded finding: the example builder follows every type twice on
+// every path, so n object types that all refer to each other through optional members give an example whose size
+// grows faster than n! (n = 5: 0.5 MB, n = 6: 26 MB, n = 7 does not end in minutes).
+func c06DenseOptional(r *mon.Run) {
+	const n = 6
+	r.Eval(1)
+	var types []typeDef
+	for i := 0; i < n; i++ {
+		var mem []string
+		for j := 0; j < n; j++ {
+			c := ","
+			if j == n-1 {
+				c = ""
+			}
+			mem = append(mem, fmt.Sprintf("  \"m%d\": @t%d%s // {optional: true}", j, j, c))
+		}
+		types = append(types, typeDef{Name: fmt.Sprintf("@t%d", i), Text: "{\n" + strings.Join(mem, "\n") + "\n}"})
+	}
+	pt := project{Root: `{"r": @t0}`, Types: types}
+	var cerr, eerr error
+	var size int
+	if p := mon.Guard(func() {
+		s, err := pt.build()
+		if cerr = err; cerr != nil {
+			return
+		}
+		if cerr = s.Check(); cerr == nil {
+			var ex []byte
+			ex, eerr = s.Example()
+			size = len(ex)
+		}
+	}); p != nil {
+		r.Violate("panic", "densely connected optional types/"+p.Site, "panic: "+p.Value, map[string]any{"project": pt})
+		return
+	}
+	if cerr == nil && eerr == nil && size > c06MaxExample {
+		r.Violate("example-unbounded", "six object types that all refer to each other through optional members", fmt.Sprintf("Check() passes and Example() returns %d bytes (5 such types: about 0.5 MB, 7: no answer within minutes)", size), map[string]any{"project": pt})
+	}
+}
+
 func c06Run(r *mon.Run) {
 	st := newC06State()
 	defer st.flush(r)
 	sampled := 0
 	if r.Shard == 0 {
 		c06RefWithOr(r)
+	}
+	if r.Shard == 1 {
+		c06DenseOptional(r)
 	}
 	// (1) enumerated families; the global index runs over all of them
 	var base uint64
